@@ -178,6 +178,8 @@ structure Tables where
   ctl : Array (Option Int × Option Int) := #[]
   /-- entry j: callback invocation number j raises an exception -/
   raises : Array Bool := #[]
+  /-- entry j: what callback invocation number j assigns to `nanstop`, if anything -/
+  nans : Array (Option Bool) := #[]
 
 def envOf (tb : Tables) : Env W Nat Nat Bool :=
   { step := fun w => (w.1 + 1, w.2)
@@ -235,6 +237,13 @@ def sessionRun (tb : Tables) (pinnedItnum : Bool) (ds : DispSt) : Drv W Nat Stri
         (match solveInsertRaise (envOf tb) (cbv.map (·.toCallback)) d0 with
          | (dz, none) => some dz
          | _ => none) else none
+    -- sessions whose callbacks assign `nanstop` (they assign nothing else and do not raise)
+    let viaN : Option (Drv W Nat String × Outcome) := if cb && tb.nans.size > 0 then
+        some (solveN (envOf tb) { run := (cbOf tb).run, ticks := (cbOf tb).ticks,
+                                  setNan := fun w => (tb.nans.getD w.2 none) } d0) else none
+    let (d1n, on) := match viaN with
+      | some r => r
+      | none => (d1n, on)
     let (d1, o, oname) := match zdiv, raised with
       | some dz, _ => (dz, Outcome.nan, "zerodiv")
       | none, some dr => (dr, Outcome.nan, "cbraise")
@@ -250,7 +259,7 @@ def sessionRun (tb : Tables) (pinnedItnum : Bool) (ds : DispSt) : Drv W Nat Stri
     let ds := { ds with st := s2 }
     let out := jObj [("outcome", jS oname), ("itnum", jI d1.itnum), ("itnum_pinned", jI itPinned),
       ("printed", jArr (printed.map jEv)),
-      ("itnum_late", jI itLate), ("maxiter", jI d1.maxiter),
+      ("itnum_late", jI itLate), ("maxiter", jI d1.maxiter), ("nanstop", jB d1.nanstop),
       ("clock", jN d1.clock),
       ("rows", jArr ((d1.rows.drop d.rows.length).map jRow)),
       ("cbs", jArr ((d1.cblog.drop d.cblog.length).map jCb)),
@@ -324,7 +333,12 @@ def handler : Handler := fun op j =>
       let raises ← match field? j "raises" with
         | none => some []
         | some r => getListOf? getBool? r
-      let tb : Tables := ⟨st.toArray, ct.toArray, vs.toArray, ctl.toArray, raises.toArray⟩
+      let nans ← match field? j "nans" with
+        | none => some []
+        | some r => (getList? r).bind (fun l => l.mapM (fun e => match e with
+            | .null => some none
+            | v => (getBool? v).map some))
+      let tb : Tables := ⟨st.toArray, ct.toArray, vs.toArray, ctl.toArray, raises.toArray, nans.toArray⟩
       let o : Scico.Driver.Options := { iter0 := ← fInt? j "iter0", maxiter := 100, nanstop := ← fBool? j "nanstop" }
       let d : Drv W Nat String := Drv.init (0, 0) o "main" "all" (← fNat? j "clock")
       let dopts : DisplayOpts ← match field? j "disp" with
